@@ -82,3 +82,304 @@ LOOPS = {
         write_frame=("cs", ["candle", "prev_candle"]),
     ),
 }
+
+
+def trim_builder(ex, st):
+    import z3
+    from hexvc.state import ObjP, QAssume
+    from hexvc.store import CandleStoreP, HListP
+    from hexvc.timevals import TimeDeltaV
+    from hexvc.values import SInt
+    src = ex.ctx.source
+    mcls = src.module("hexital.core.candle_manager").classes["CandleManager"]
+    src.resolve_class_bases(mcls)
+    cs = CandleStoreP("cs")
+    csr = st.alloc(cs)
+    n, life = z3.Int("n"), z3.Int("life")
+    lst = HListP("I", csr, lo=z3.IntVal(0), hi=n)
+    lr = st.alloc(lst)
+    st.assume(z3.And(n >= 0, life >= 0))
+    arr, ts = lst.arr, cs.arr["ts"]
+    st.qassumes.append(QAssume(lambda p: z3.Implies(z3.And(p >= 0, p < n), arr[p] == p), "ids-are-positions"))
+    from hexvc.state import QAssume2
+    st.qassumes.append(QAssume2(lambda p, q: z3.Implies(z3.And(p >= 0, p <= q, q < n), ts[p] <= ts[q]), "timestamps-non-decreasing"))
+    m = st.alloc(ObjP(mcls, {"candles": lr, "timeframe": None, "timeframe_fill": False, "candles_lifespan": TimeDeltaV(life), "candlestick_type": None}))
+    ex.ctx.ghost_env = {"cs": csr, "n": SInt(n), "life": SInt(life)}
+    yield st, [m], {}, {"self": m, "cs": csr, "n": SInt(n), "life": SInt(life)}
+
+
+NEWEST = "F(cs, 'ts', n - 1)"
+TRIM = Contract(
+    CM + "trim_candles",
+    ensures={
+        "a-suffix-of-the-list-remains": "LHi(self.candles) == n and 0 <= LLo(self.candles) and LLo(self.candles) <= n and forall(0, n, lambda p: LRaw(self.candles, p) == p)",
+        "dropped-candles-are-older-than-the-lifespan": f"forall(0, LLo(self.candles), lambda p: {TS('p')} < {NEWEST} - life)",
+        "retained-candles-are-inside-the-lifespan": f"forall(LLo(self.candles), n, lambda p: {TS('p')} >= {NEWEST} - life)",
+        "newest-candle-retained": "implies(n >= 1, LLo(self.candles) <= n - 1)",
+    },
+    result_type="None", props=["C15"], use_at_calls=False)
+HEX_TASKS[CM + "trim_candles"] = dict(builder=trim_builder, contract=TRIM)
+LOOPS[(CM + "trim_candles", 0)] = LoopSpec(
+    invariant={
+        "a-suffix-remains": "LHi(self.candles) == n and 0 <= LLo(self.candles) and LLo(self.candles) <= n - 1 and forall(0, n, lambda p: LRaw(self.candles, p) == p)",
+        "dropped-are-too-old": f"forall(0, LLo(self.candles), lambda p: {TS('p')} < {NEWEST} - life)",
+        "latest-is-the-newest-timestamp": f"Sec(latest) == {NEWEST}",
+    },
+    modifies_heap=["self.candles"],
+)
+
+
+def new_heap_candle(ex, cls, args, kwargs, st, node):
+    """Candle(open=..., high=..., low=..., close=..., volume=..., timestamp=...) on the heap model: a fresh id
+    (not among the existing candles), empty readings, no clean values, no tag"""
+    import z3
+    from hexvc.store import HCandle
+    from hexvc.values import to_real_term, to_int_term
+    csr = ex.ctx.ghost_env.get("cs") if getattr(ex.ctx, "ghost_env", None) else None
+    if csr is None:
+        return None
+    cs = st.heap[csr.oid]
+    i = cs.alloc(st)
+    c = HCandle(csr, i)
+    names = ["open", "high", "low", "close", "volume", "timestamp"]
+    vals_ = dict(zip(names, args))
+    vals_.update(kwargs)
+    for f in ("open", "high", "low", "close", "volume"):
+        cs.arr[f] = z3.Store(cs.arr[f], i, to_real_term(vals_[f]))
+    cs.arr["ts"] = z3.Store(cs.arr["ts"], i, to_int_term(vals_["timestamp"].sec))
+    cs.arr["clean"] = z3.Store(cs.arr["clean"], i, z3.BoolVal(False))
+    cs.arr["rd"] = z3.Store(cs.arr["rd"], i, z3.IntVal(0))
+    cs.arr["tag"] = z3.Store(cs.arr["tag"], i, z3.IntVal(0))
+
+    def gen():
+        yield st, c
+    return gen()
+
+
+STORE_NATIVES = {"new:Candle": new_heap_candle}
+
+
+def fill_builder(tf_value):
+    def build(ex, st):
+        import z3
+        from hexvc.state import ObjP, QAssume
+        from hexvc.store import CandleStoreP, HListP
+        from hexvc.timevals import TimeDeltaV
+        from hexvc.values import SInt
+        src = ex.ctx.source
+        mcls = src.module("hexital.core.candle_manager").classes["CandleManager"]
+        src.resolve_class_bases(mcls)
+        cs = CandleStoreP("cs")
+        csr = st.alloc(cs)
+        n = z3.Int("n")
+        tf = z3.IntVal(tf_value)
+        lst = HListP("B", csr, lo=z3.IntVal(0), hi=n)
+        lr = st.alloc(lst)
+        next0 = cs.next_id
+        st.assume(z3.And(n >= 0, next0 >= n))
+        arr, ts = lst.arr, cs.arr["ts"]
+        st.qassumes.append(QAssume(lambda p: z3.Implies(z3.And(p >= 0, p < n), arr[p] == p), "ids-are-positions"))
+        # the input of fill is the output of collapse: labels on bucket ends, strictly increasing
+        st.qassumes.append(QAssume(lambda p: z3.Implies(z3.And(p >= 0, p < n), ts[p] % tf == 0), "labels-are-bucket-ends"))
+        st.qassumes.append(QAssume(lambda p: z3.Implies(z3.And(p >= 0, p + 1 < n), ts[p] < ts[p + 1]), "labels-strictly-increasing"))
+        m = st.alloc(ObjP(mcls, {"candles": st.alloc(HListP("unused", csr, lo=z3.IntVal(0), hi=z3.IntVal(0))), "timeframe": None,
+                                 "timeframe_fill": True, "candles_lifespan": None, "candlestick_type": None}))
+        g = {"cs": csr, "n": SInt(n), "tf": SInt(tf), "next0": SInt(next0)}
+        ex.ctx.ghost_env = dict(g)
+        yield st, [m, lr, TimeDeltaV(tf)], {}, dict(g, self=m, candles=lr)
+    return build
+
+
+ID = lambda q: f"LId(candles, {q})"
+FILL_INV = {
+    "allocator": "NextId(cs) >= next0 and forall(0, LLen(candles), lambda q: " + ID("q") + " < NextId(cs))",
+    "index-inside": "1 <= index and index < LLen(candles) and LLo(candles) == 0",
+    "prefix-is-contiguous": f"forall(0, index - 1, lambda q: {TS(ID('q + 1'))} == {TS(ID('q'))} + tf)",
+    "labels-are-bucket-ends": f"forall(0, LLen(candles), lambda q: {TS(ID('q'))} % tf == 0)",
+    "labels-strictly-increasing": f"forall(0, LLen(candles) - 1, lambda q: {TS(ID('q'))} < {TS(ID('q + 1'))})",
+    "real-buckets-untouched": "forall(0, n, lambda p: F(cs, 'ts', p) == F0(cs, 'ts', p) and F(cs, 'close', p) == F0(cs, 'close', p)"
+                              " and F(cs, 'open', p) == F0(cs, 'open', p) and F(cs, 'high', p) == F0(cs, 'high', p) and F(cs, 'low', p) == F0(cs, 'low', p)"
+                              " and F(cs, 'volume', p) == F0(cs, 'volume', p) and F(cs, 'rd', p) == F0(cs, 'rd', p))",
+    "inserted-candles-are-flat-and-empty": (
+        "forall(1, LLen(candles), lambda q: implies(" + ID("q") + " >= next0,"
+        " F(cs, 'open', " + ID("q") + ") == F(cs, 'close', " + ID("q - 1") + ") and F(cs, 'high', " + ID("q") + ") == F(cs, 'close', " + ID("q - 1") + ")"
+        " and F(cs, 'low', " + ID("q") + ") == F(cs, 'close', " + ID("q - 1") + ") and F(cs, 'close', " + ID("q") + ") == F(cs, 'close', " + ID("q - 1") + ")"
+        " and F(cs, 'volume', " + ID("q") + ") == 0 and F(cs, 'rd', " + ID("q") + ") == 0))"),
+    "first-and-last-are-the-input-ends": "LId(candles, 0) == 0 and LId(candles, LLen(candles) - 1) == n - 1",
+    "elements-are-inputs-or-inserted": "forall(0, LLen(candles), lambda q: (0 <= " + ID("q") + " and " + ID("q") + " < n) or " + ID("q") + " >= next0)",
+}
+FILL = Contract(
+    CM + "fill_missing_candles",
+    ensures={
+        "contiguous": f"implies(n >= 2, forall(0, LLen(result) - 1, lambda q: F(cs, 'ts', LId(result, q + 1)) == F(cs, 'ts', LId(result, q)) + tf))",
+        "real-buckets-untouched": "forall(0, n, lambda p: F(cs, 'ts', p) == F0(cs, 'ts', p) and F(cs, 'close', p) == F0(cs, 'close', p)"
+                                  " and F(cs, 'volume', p) == F0(cs, 'volume', p) and F(cs, 'rd', p) == F0(cs, 'rd', p))",
+        "inserted-candles-are-flat-with-zero-volume": (
+            "implies(n >= 2, forall(1, LLen(result), lambda q: implies(LId(result, q) >= next0,"
+            " F(cs, 'open', LId(result, q)) == F(cs, 'close', LId(result, q - 1)) and F(cs, 'high', LId(result, q)) == F(cs, 'close', LId(result, q - 1))"
+            " and F(cs, 'low', LId(result, q)) == F(cs, 'close', LId(result, q - 1)) and F(cs, 'close', LId(result, q)) == F(cs, 'close', LId(result, q - 1))"
+            " and F(cs, 'volume', LId(result, q)) == 0)))"),
+        "ends-kept": "implies(n >= 2, LId(result, 0) == 0 and LId(result, LLen(result) - 1) == n - 1)",
+    },
+    result_type="None", props=["C12"], use_at_calls=False)
+FILL.ground_rounds = 3
+FILL.max_terms = 160
+for _tf in (1, 300, 86400):
+    HEX_TASKS[CM + f"fill_missing_candles#tf={_tf}s"] = dict(qualname=CM + "fill_missing_candles", builder=fill_builder(_tf), contract=FILL, natives=STORE_NATIVES)
+LOOPS[(CM + "fill_missing_candles", 0)] = LoopSpec(
+    invariant=FILL_INV,
+    types={"index": "int", "prev_candle": "hcandle", "fill_candle": "hcandle", "candles": "hlist"},
+    modifies_heap=["cs"],
+    write_frame=("cs", []),
+)
+
+CT = "hexital.core.candlestick_type.CandlestickType."
+HA = "1 + 0"  # placeholder, replaced below
+
+
+def ha_builder(ex, st):
+    import z3
+    from hexvc.state import ObjP, QAssume
+    from hexvc.store import CandleStoreP, HListP, tag_code
+    from hexvc.values import SInt
+    src = ex.ctx.source
+    hcls = src.module("hexital.candlesticks.heikinashi").classes["HeikinAshi"]
+    src.resolve_class_bases(hcls)
+    cs = CandleStoreP("cs")
+    csr = st.alloc(cs)
+    n, c = z3.Int("n"), z3.Int("c")
+    lst = HListP("L", csr, lo=z3.IntVal(0), hi=n)
+    lr = st.alloc(lst)
+    st.assume(z3.And(n >= 0, c >= 0, c <= n))
+    arr, tag = lst.arr, cs.arr["tag"]
+    code = tag_code("Heikin-Ashi")
+    st.qassumes.append(QAssume(lambda p: z3.Implies(z3.And(p >= 0, p < n), arr[p] == p), "ids-are-positions"))
+    # representation invariant of the store: the converted candles are a prefix (conversion runs after every
+    # collapse; merging un-converts only the last bucket)
+    st.qassumes.append(QAssume(lambda p: z3.Implies(z3.And(p >= 0, p < n), tag[p] == z3.If(p < c, code, 0)), "converted-candles-are-a-prefix"))
+    h = st.alloc(ObjP(hcls, {}))
+    g = {"cs": csr, "n": SInt(n), "c": SInt(c), "HA": SInt(code)}
+    ex.ctx.ghost_env = dict(g)
+    yield st, [h, lr], {}, dict(g, self=h, candles=lr)
+
+
+FIND_CONV = Contract(CT + "_find_conv_index", returns="c", props=["C11"], use_at_calls=False, pure=True)
+LOOPS[(CT + "_find_conv_index", 0)] = LoopSpec(invariant={"no-converted-candle-above": "forall(0, it, lambda t: F(cs, 'tag', LId(candles, LLen(candles) - 1 - t)) != HA)"})
+HEX_TASKS[CT + "_find_conv_index"] = dict(builder=ha_builder, contract=FIND_CONV)
+
+RAW = lambda f, p: f"F0(cs, '{f}', {p})"
+NOW = lambda f, p: f"F(cs, '{f}', {p})"
+HA_CLOSE = lambda p: f"({RAW('open', p)} + {RAW('high', p)} + {RAW('low', p)} + {RAW('close', p)}) / 4"
+HA_OPEN = lambda p: f"(({RAW('open', p)} + {RAW('close', p)}) / 2 if {p} == 0 else ({NOW('open', f'{p} - 1')} + {NOW('close', f'{p} - 1')}) / 2)"
+CONV_PARTS = {
+    "tagged-saved-reset": lambda p: f"{NOW('tag', p)} == HA and {NOW('clean', p)} and {NOW('rd', p)} == 0",
+    "raw-values-recoverable": lambda p: (f"{NOW('c_open', p)} == {RAW('open', p)} and {NOW('c_high', p)} == {RAW('high', p)} and {NOW('c_low', p)} == {RAW('low', p)}"
+                                         f" and {NOW('c_close', p)} == {RAW('close', p)} and {NOW('c_volume', p)} == {RAW('volume', p)} and {NOW('c_ts', p)} == {RAW('ts', p)}"),
+    "ha-close": lambda p: f"{NOW('close', p)} == {HA_CLOSE(p)}",
+    "ha-open": lambda p: f"{NOW('open', p)} == {HA_OPEN(p)}",
+    "ha-high-low": lambda p: (f"{NOW('high', p)} == Max({NOW('open', p)}, {RAW('high', p)}, {NOW('close', p)})"
+                              f" and {NOW('low', p)} == Min({NOW('open', p)}, {RAW('low', p)}, {NOW('close', p)})"),
+    "volume-and-timestamp-kept": lambda p: f"{NOW('volume', p)} == {RAW('volume', p)} and {NOW('ts', p)} == {RAW('ts', p)}",
+}
+UNTOUCHED = lambda p: " and ".join(f"{NOW(f, p)} == {RAW(f, p)}" for f in ("open", "high", "low", "close", "volume", "ts", "tag", "rd", "clean"))
+CONVERSION = Contract(
+    CT + "conversion",
+    ensures={
+        "already-converted-candles-untouched": f"forall(0, c, lambda p: {UNTOUCHED('p')})",
+        **{"converted:" + k: f"forall(c, n, lambda p: {fn('p')})" for k, fn in CONV_PARTS.items()},
+    },
+    result_type="None", props=["C11"], use_at_calls=False)
+LOOPS[(CT + "conversion", 0)] = LoopSpec(
+    invariant={
+        "already-converted-candles-untouched": f"forall(0, c, lambda p: {UNTOUCHED('p')})",
+        **{"converted-so-far:" + k: f"forall(c, c + it, lambda p: {fn('p')})" for k, fn in CONV_PARTS.items()},
+        "not-yet-converted-untouched": f"forall(c + it, n, lambda p: {UNTOUCHED('p')})",
+        "list-unchanged": "LLo(candles) == 0 and LHi(candles) == n and forall(0, n, lambda p: LRaw(candles, p) == p)",
+    },
+    types={"candle": "hcandle"},
+    modifies_heap=["cs"],
+    write_frame=("cs", ["candle"]),
+)
+HEX_TASKS[CT + "conversion"] = dict(builder=ha_builder, contract=CONVERSION)
+
+K = "hexital.core.candle.Candle."
+
+
+def candle_obj_builder(converted):
+    """two real Candle objects built by the real constructor; `self` optionally in the state conversion leaves
+    it in (clean_values = what save_clean_values stored, OHLC overwritten, tag set, some readings present)"""
+    def build(ex, st):
+        import z3
+        from hexvc.exec import ClassVal
+        from hexvc.objects import instantiate
+        from hexvc.state import DictP
+        from hexvc.timevals import DateTimeV
+        from hexvc.values import SFloat, SNum, SV, V
+        src = ex.ctx.source
+        ccls = src.module("hexital.core.candle").classes["Candle"]
+        src.resolve_class_bases(ccls)
+        env = {}
+
+        def mk(prefix, st0):
+            vals_ = {f: SFloat(z3.Real(f"{prefix}{f}")) for f in ("open", "high", "low", "close")}
+            vals_["volume"] = SNum(z3.Real(f"{prefix}volume"), z3.BoolVal(False))
+            vals_["timestamp"] = DateTimeV(z3.Int(f"{prefix}ts"))
+            outs = list(instantiate(ex, ccls, [], dict(vals_), st0, None))
+            s1, ref = outs[0]
+            for f, v in vals_.items():
+                env[prefix + f] = v
+            return s1, ref
+
+        st, a = mk("a_", st)
+        st, b = mk("b_", st)
+        pa = st.heap[a.oid]
+        pa.fields["indicators"] = st.alloc(DictP({"EMA_3": SV(z3.Const("old_reading", V))}))
+        if converted:
+            raw = {f: env["a_" + f] for f in ("open", "high", "low", "close", "volume", "timestamp")}
+            raw["clean_values"] = st.alloc(DictP({}))
+            raw["indicators"] = st.alloc(DictP({}))
+            raw["sub_indicators"] = st.alloc(DictP({}))
+            pa.fields["clean_values"] = st.alloc(DictP(raw))
+            for f in ("open", "high", "low", "close"):
+                pa.fields[f] = SFloat(z3.Real(f"conv_{f}"))
+            pa.fields["_tag"] = "Heikin-Ashi"
+        env.update({"self": a, "candle": b})
+        yield st, [a, b], {}, env
+    return build
+
+
+MERGE = Contract(
+    K + "merge",
+    ensures={
+        "open-kept-raw": "self.open == a_open",
+        "high-is-max": "self.high == Max(a_high, b_high)",
+        "low-is-min": "self.low == Min(a_low, b_low)",
+        "volume-summed": "self.volume == a_volume + b_volume",
+        "close-taken": "self.close == b_close",
+        "timestamp-kept-raw": "self.timestamp == a_timestamp",
+        "clean-values-dropped": "LenOf(self.clean_values) == 0",
+        "readings-wiped": "LenOf(self.indicators) == 0 and LenOf(self.sub_indicators) == 0",
+        "tag-cleared": "self._tag is None",
+        "other-candle-untouched": "candle.open == b_open and candle.high == b_high and candle.low == b_low and candle.close == b_close and candle.volume == b_volume",
+    },
+    result_type="None", props=["C03", "C11", "C01", "C02"], use_at_calls=False)
+HEX_TASKS[K + "merge#raw"] = dict(qualname=K + "merge", builder=candle_obj_builder(False), contract=MERGE)
+HEX_TASKS[K + "merge#converted"] = dict(qualname=K + "merge", builder=candle_obj_builder(True), contract=MERGE)
+
+
+def candle_single_builder(ex, st):
+    for st1, args, kw, env in candle_obj_builder(False)(ex, st):
+        yield st1, [args[0]], {}, env
+
+
+SAVE = Contract(
+    K + "save_clean_values",
+    ensures={"raw-values-saved": "self.clean_values['open'] == a_open and self.clean_values['high'] == a_high and self.clean_values['low'] == a_low"
+                                 " and self.clean_values['close'] == a_close and self.clean_values['volume'] == a_volume and self.clean_values['timestamp'] == a_timestamp",
+             "fields-unchanged": "self.open == a_open and self.high == a_high and self.low == a_low and self.close == a_close and self.volume == a_volume"},
+    result_type="None", props=["C11"], use_at_calls=False)
+HEX_TASKS[K + "save_clean_values"] = dict(builder=candle_single_builder, contract=SAVE)
+RESET = Contract(K + "reset_candle", ensures={"readings-wiped-and-tag-cleared": "LenOf(self.indicators) == 0 and LenOf(self.sub_indicators) == 0 and self._tag is None",
+                                              "values-unchanged": "self.open == a_open and self.close == a_close and self.high == a_high and self.low == a_low and self.volume == a_volume"},
+                 result_type="None", props=["C11", "C03"], use_at_calls=False)
+HEX_TASKS[K + "reset_candle"] = dict(builder=candle_single_builder, contract=RESET)
